@@ -268,4 +268,4 @@ LEVEL_NOTE = ("Partial: the model is bounds-checked, so the logic of memory safe
               "Trusted: Coq kernel, extraction, harness (seams, region bookkeeping), generators, LP64. Modelled not verified: the C++ itself; libc "
               "malloc/realloc behind the seam; the default allocators' FAIL-on-NULL path (checkedMalloc) is not exercised.")
 TECHNIQUE = "Coq proof over hand-written executable model + extracted-model/implementation correspondence check (differential, boundary sweep + fault enumeration)"
-READY = True
+READY = False
